@@ -1,8 +1,9 @@
 import GS.OpsBf
 import GS.Model.Bf
 /-! Driver op for the `bf` mirror: `bfdimacs <SF wire format>` → the text of `bf.Dimacs` on one
-line (`\n` written as the two characters `\n`), `unsupported` for `unique` groups of more than 4
-names (`uniqueRec` is not mirrored), `panic` if the mirror of `cnfRec` panics. -/
+line (`\n` written as the two characters `\n`), `unsupported` when some `unique` group **in positive
+position** has more than `GS.Bf.maxPosGroup` names (groups in negative position: any size),
+`panic` if the mirror of `cnfRec` panics. -/
 namespace GS.OpsBfModel
 open GS GS.Proto
 
